@@ -58,14 +58,15 @@ Lemma details_ok_model n r :
   details_ok_b n r [(("error_" ++ n)%string, error_object (r_code r) (r_body r) (r_enc r))] = true.
 Proof.
   unfold details_ok_b. cbn [lookup]. rewrite str_eqb_refl.
-  unfold error_object. cbn [lookup app]. 
+  unfold error_object. cbn [lookup app].
   change (str_eqb "http_status_code" "http_status_code") with true. cbn iota.
   rewrite str_eqb_refl. cbn [andb].
-  destruct (str_eqb (r_body r) "") eqn:E; [reflexivity|].
-  cbn [orb app lookup].
   change (str_eqb "http_body" "http_status_code") with false. cbn iota.
-  change (str_eqb "http_body" "http_body") with true. cbn iota.
-  apply str_eqb_refl.
+  destruct (str_eqb (r_body r) "") eqn:E.
+  - cbn [app]. destruct (str_eqb (r_enc r) ""); reflexivity.
+  - cbn [app lookup].
+    change (str_eqb "http_body" "http_body") with true. cbn iota.
+    apply str_eqb_refl.
 Qed.
 
 (* mode selection *)
@@ -153,3 +154,569 @@ Definition dec_text (z : Z) : string := NilZero.string_of_int (Z.to_int z).
 Definition range (lo : Z) (n : nat) : list Z := map (fun i => (lo + Z.of_nat i)%Z) (seq 0 n).
 Lemma z_lit_decimal : forallb (fun c => str_eqb (z_lit c) (dec_text c)) (range 100 500) = true.
 Proof. vm_compute. reflexivity. Qed.
+
+(* ======================================================================================
+   Extension: raw extra_config, endpoint stages, routers (see Model/C12.v, second part)
+   ====================================================================================== *)
+From Coq Require Import DecimalZ DecimalPos.
+
+(* ---------- mode selection from the raw map ---------- *)
+Lemma status_mode_raw_digest extra :
+  status_mode_raw extra =
+  match lookup ns_http extra with
+  | Some (JObj m) => status_mode (cfgval_of (lookup key_details m)) (cfgval_of (lookup key_code m))
+  | _ => MDefault
+  end.
+Proof.
+  unfold status_mode_raw, status_mode, cfgval_of.
+  destruct (lookup ns_http extra) as [[| | | | |m|]|]; try reflexivity.
+  destruct (lookup key_details m) as [[| | | | | |]|]; try reflexivity.
+  destruct (lookup key_code m) as [[|[]| | | | |]|]; reflexivity.
+Qed.
+
+Lemma raw_error_code_iff extra :
+  status_mode_raw extra = MErrorCode <->
+  exists m, lookup ns_http extra = Some (JObj m) /\ lookup key_details m = None /\
+            lookup key_code m = Some (JBool true).
+Proof.
+  unfold status_mode_raw. split.
+  - destruct (lookup ns_http extra) as [[| | | | |m|]|] eqn:E1; try discriminate.
+    destruct (lookup key_details m) as [[| | |s| | |]|] eqn:E2; try discriminate.
+    + destruct (str_eqb s ""); discriminate.
+    + destruct (lookup key_code m) as [[|[]| | | | |]|] eqn:E3; try discriminate.
+      intros _. exists m. repeat split; assumption.
+  - intros (m & -> & -> & ->). reflexivity.
+Qed.
+
+Lemma raw_details_iff extra n :
+  status_mode_raw extra = MDetails n <->
+  exists m, lookup ns_http extra = Some (JObj m) /\ lookup key_details m = Some (JStr n) /\ n <> "".
+Proof.
+  unfold status_mode_raw. split.
+  - destruct (lookup ns_http extra) as [[| | | | |m|]|] eqn:E1; try discriminate.
+    destruct (lookup key_details m) as [[| | |s| | |]|] eqn:E2; try discriminate.
+    + destruct (str_eqb s "") eqn:E; [discriminate|]. intros [= <-]. exists m. repeat split; try assumption.
+      apply str_eqb_neq. exact E.
+    + destruct (lookup key_code m) as [[|[]| | | | |]|]; discriminate.
+  - intros (m & -> & -> & Hn). apply str_eqb_neq in Hn. rewrite Hn. reflexivity.
+Qed.
+
+Lemma raw_default_iff extra :
+  status_mode_raw extra = MDefault <->
+  ~ (exists m, lookup ns_http extra = Some (JObj m) /\ lookup key_details m = None /\
+               lookup key_code m = Some (JBool true)) /\
+  ~ (exists m n, lookup ns_http extra = Some (JObj m) /\ lookup key_details m = Some (JStr n) /\ n <> "").
+Proof.
+  split.
+  - intros H. split.
+    + intros Hc. apply raw_error_code_iff in Hc. congruence.
+    + intros (m & n & Hd). assert (status_mode_raw extra = MDetails n) by (apply raw_details_iff; eauto).
+      congruence.
+  - intros [H1 H2]. destruct (status_mode_raw extra) as [| |n] eqn:E; [reflexivity| |].
+    + exfalso. apply H1. apply raw_error_code_iff. exact E.
+    + exfalso. apply H2. apply raw_details_iff in E. destruct E as (m & E). exists m, n. exact E.
+Qed.
+
+(* ---------- any other status: failed, in every mode; the decoded body is never used ---------- *)
+Lemma other_status_fails m r d :
+  ok_status (r_code r) = false ->
+  http_proxy_outcome m r d =
+  match m with
+  | MDefault => (None, EInvalidStatus)
+  | MErrorCode => (None, ECode (r_code r) (r_body r) (r_enc r))
+  | MDetails n =>
+      (Some {| p_data := [(("error_" ++ n)%string, error_object (r_code r) (r_body r) (r_enc r))];
+               p_complete := false; p_status := r_code r |}, ENone)
+  end.
+Proof. intros H. unfold http_proxy_outcome, classify. rewrite H. destruct m; reflexivity. Qed.
+
+Lemma undecodable_fails m r :
+  ok_status (r_code r) = true -> http_proxy_outcome m r None = (None, EDecode).
+Proof. intros H. unfold http_proxy_outcome, classify. rewrite H. reflexivity. Qed.
+
+Lemma empty_body_error_object c :
+  error_object c "" "" = JObj [("http_status_code", JNum (z_lit c))].
+Proof. reflexivity. Qed.
+
+(* ---------- decimal text ---------- *)
+Lemma z_lit_injective a b : z_lit a = z_lit b -> a = b.
+Proof.
+  unfold z_lit. intros H.
+  assert (Hn : forall z, Z.to_int z <> Decimal.Pos Decimal.Nil /\ Z.to_int z <> Decimal.Neg Decimal.Nil).
+  { intros z. destruct z; cbn; split; try discriminate;
+      intros E; injection E as E; revert E; apply DecimalPos.Unsigned.to_uint_nonnil. }
+  assert (E : Some (Z.to_int a) = Some (Z.to_int b)).
+  { rewrite <- (NilZero.isi (Z.to_int a)) by apply Hn.
+    rewrite <- (NilZero.isi (Z.to_int b)) by apply Hn. now rewrite H. }
+  injection E as E. apply DecimalZ.to_int_inj. exact E.
+Qed.
+
+Lemma z_lit3_agrees : forallb (fun c => str_eqb (z_lit3 c) (z_lit c)) (range 0 1000) = true.
+Proof. vm_compute. reflexivity. Qed.
+
+(* ---------- the endpoint seen as a function of the backends' outcomes ---------- *)
+Definition outcome (b : backend) : pout := let '(m, r, d) := b in http_proxy_outcome m r d.
+
+Definition merged_out (outs : list pout) : eout :=
+  let '(resp, anyerr) := merge_outs outs in
+  let texts := flat_map (fun o => match snd o with ENone => [] | e => [err_text e] end) outs in
+  EOut resp (if anyerr then Some (500%Z, join_nl texts) else None).
+
+Definition outs_out (epx : obj) (o0 : pout) (orest : list pout) : eout :=
+  static_stage (static_cfg epx)
+    (match orest with
+     | [] => EOut (fst o0) (err_of_single (snd o0))
+     | _ => flat_stage (flatmap_active epx) (merged_out (o0 :: orest))
+     end).
+
+Lemma endpoint_out_outs epx b0 rest :
+  endpoint_out epx b0 rest = outs_out epx (outcome b0) (map outcome rest).
+Proof.
+  unfold endpoint_out, outs_out. f_equal. destruct rest as [|b1 rest].
+  - destruct b0 as [[m r] d]. cbn [map single_out outcome].
+    destruct (http_proxy_outcome m r d); reflexivity.
+  - reflexivity.
+Qed.
+
+(* a failing default-mode backend yields one fixed outcome *)
+Lemma outcome_default_fixed x r d :
+  status_mode_raw x = MDefault -> ok_status (r_code r) = false ->
+  outcome (backend_of_raw (x, r, d)) = (None, EInvalidStatus).
+Proof. intros Hm Hok. cbn. rewrite Hm. apply (default_fails MDefault r d Hok eq_refl). Qed.
+
+Definition client_endpoint_l (rt : router) (prior : list string) (epx : obj) (ms : list backend) : option cobs :=
+  match ms with
+  | [] => None
+  | b0 :: rest => Some (client_endpoint rt prior epx b0 rest)
+  end.
+
+Lemma client_endpoint_l_outs rt prior epx ms ms' :
+  map outcome ms = map outcome ms' -> client_endpoint_l rt prior epx ms = client_endpoint_l rt prior epx ms'.
+Proof.
+  destruct ms as [|b0 rest], ms' as [|b0' rest']; cbn [map]; try discriminate; [reflexivity|].
+  intros [= H0 Hr]. unfold client_endpoint_l, client_endpoint.
+  rewrite !endpoint_out_outs, H0, Hr. reflexivity.
+Qed.
+
+(* default mode: the client observation does not depend on what the failing backend sent *)
+Lemma ep_default_independent rt prior epx pre post x x' r r' d d' :
+  status_mode_raw x = MDefault -> status_mode_raw x' = MDefault ->
+  ok_status (r_code r) = false -> ok_status (r_code r') = false ->
+  client_endpoint_l rt prior epx (map backend_of_raw (pre ++ (x, r, d) :: post)) =
+  client_endpoint_l rt prior epx (map backend_of_raw (pre ++ (x', r', d') :: post)).
+Proof.
+  intros Hx Hx' Hr Hr'. apply client_endpoint_l_outs.
+  rewrite !map_app. cbn [map]. rewrite !outcome_default_fixed by assumption. reflexivity.
+Qed.
+
+(* ---------- static stage facts ---------- *)
+Lemma In_remove {V} k k' (v : V) m : k <> k' -> In (k, v) m -> In (k, v) (remove k' m).
+Proof.
+  intros Hne. induction m as [|[k0 v0] m IH]; cbn; [tauto|].
+  intros [E|H].
+  - injection E as -> ->. destruct (str_eqb k' k) eqn:Ek.
+    + apply str_eqb_eq in Ek. congruence.
+    + left. reflexivity.
+  - destruct (str_eqb k' k0); [apply IH; exact H | right; apply IH; exact H].
+Qed.
+
+Lemma In_overlay data : forall base k v,
+  In (k, v) base -> ~ In k (keys data) -> In (k, v) (overlay data base).
+Proof.
+  unfold overlay. induction data as [|[k0 v0] data IH]; intros base k v Hin Hk; cbn; [exact Hin|].
+  apply IH.
+  - cbn. right. apply In_remove; [|exact Hin]. intros ->. apply Hk. left. reflexivity.
+  - intros H. apply Hk. right. exact H.
+Qed.
+
+Lemma overlay_nonempty data : forall base, base <> [] -> overlay data base <> [].
+Proof.
+  unfold overlay. induction data as [|[k0 v0] data IH]; intros base Hb; cbn; [exact Hb|].
+  apply IH. unfold set. discriminate.
+Qed.
+
+Lemma static_stage_payload st p err :
+  exists p', static_stage st (EOut (Some p) err) = EOut (Some p') err /\
+             p_complete p' = p_complete p /\
+             (p_data p <> [] -> p_data p' <> []) /\
+             (forall k v, In (k, v) (p_data p) -> ~ In k (static_keys st) -> In (k, v) (p_data p')).
+Proof.
+  destruct st as [[n data]|]; cbn [static_stage static_keys].
+  - destruct (static_match n (Some p) match err with Some _ => true | None => false end).
+    + eexists. split; [reflexivity|]. cbn. split; [reflexivity|]. split.
+      * apply overlay_nonempty.
+      * intros k v. apply In_overlay.
+    + exists p. repeat split; auto.
+  - exists p. repeat split; auto.
+Qed.
+
+(* ---------- merger facts ---------- *)
+Definition flagged (outs : list pout) : bool :=
+  existsb (fun o => match fst o with None => true | Some p => negb (p_complete p) end) outs.
+
+Definition payloads_of (outs : list pout) : list presp :=
+  flat_map (fun o : pout => match fst o with Some p => [p] | None => [] end) outs.
+Definition anyerr_of (outs : list pout) : bool :=
+  existsb (fun o : pout => match fst o with None => true | Some _ => false end) outs.
+
+Lemma merge_outs_eq outs :
+  merge_outs outs =
+  match payloads_of outs with
+  | [] => (None, anyerr_of outs)
+  | _ => (Some {| p_data := flat_map p_data (payloads_of outs);
+                  p_complete := forallb p_complete (payloads_of outs) && negb (anyerr_of outs);
+                  p_status := 0 |}, anyerr_of outs)
+  end.
+Proof. reflexivity. Qed.
+
+Lemma merge_outs_payload outs p0 e0 :
+  In (Some p0, e0) outs ->
+  exists p, fst (merge_outs outs) = Some p /\
+            (forall k v, In (k, v) (p_data p0) -> In (k, v) (p_data p)) /\
+            (flagged outs = true -> p_complete p = false).
+Proof.
+  intros Hin. rewrite merge_outs_eq.
+  assert (Hp : In p0 (payloads_of outs)).
+  { unfold payloads_of. apply in_flat_map. exists (Some p0, e0). split; [exact Hin|]. cbn. auto. }
+  destruct (payloads_of outs) as [|q qs] eqn:Epay; [destruct Hp|].
+  eexists. split; [reflexivity|]. cbn [p_data p_complete]. split.
+  - intros k v Hkv. apply in_flat_map. exists p0. split; assumption.
+  - intros Hf. unfold flagged in Hf. apply existsb_exists in Hf. destruct Hf as ([resp e] & Ho & Hc).
+    cbn [fst] in Hc. destruct resp as [p|].
+    + assert (Hq : In p (q :: qs)).
+      { rewrite <- Epay. unfold payloads_of. apply in_flat_map. exists (Some p, e). split; [exact Ho|]. cbn. auto. }
+      assert (Hfa : forallb p_complete (q :: qs) = false).
+      { destruct (forallb p_complete (q :: qs)) eqn:F; [|reflexivity].
+        rewrite forallb_forall in F. rewrite (F p Hq) in Hc. discriminate. }
+      rewrite Hfa. reflexivity.
+    + assert (Ha : anyerr_of outs = true).
+      { unfold anyerr_of. apply existsb_exists. exists (None, e). split; [exact Ho|reflexivity]. }
+      rewrite Ha. apply andb_false_r.
+Qed.
+
+Lemma merge_outs_none outs :
+  outs <> [] -> fst (merge_outs outs) = None -> snd (merge_outs outs) = true.
+Proof.
+  intros Hne. rewrite merge_outs_eq.
+  destruct (payloads_of outs) eqn:E; cbn [fst snd]; [|discriminate].
+  intros _. destruct outs as [|[resp e] outs]; [congruence|].
+  cbn in E. destruct resp as [p|]; [discriminate|]. reflexivity.
+Qed.
+
+(* the endpoint never dereferences a nil response *)
+Lemma outs_out_no_panic epx (o0 : pout) (orest : list pout) : outs_out epx o0 orest <> EPanic.
+Proof.
+  unfold outs_out.
+  assert (H : forall st x, x <> EPanic -> static_stage st x <> EPanic).
+  { intros [[n data]|] [resp err|] Hx; cbn; try assumption; try discriminate.
+    destruct (static_match _ _ _); discriminate. }
+  apply H. destruct orest as [|o1 orest]; [discriminate|].
+  unfold merged_out.
+  pose proof (merge_outs_none (o0 :: o1 :: orest)) as Hn.
+  destruct (merge_outs (o0 :: o1 :: orest)) as [resp anyerr]. cbn [fst snd] in Hn.
+  unfold flat_stage. destruct (flatmap_active epx); [|discriminate].
+  destruct resp as [p|].
+  - destruct anyerr; discriminate.
+  - rewrite Hn by (discriminate || reflexivity). discriminate.
+Qed.
+
+Lemma endpoint_no_panic epx b0 rest : endpoint_out epx b0 rest <> EPanic.
+Proof. rewrite endpoint_out_outs. apply outs_out_no_panic. Qed.
+
+Lemma merged_out_payload (outs : list pout) p0 e0 :
+  In (Some p0, e0) outs ->
+  exists p err, merged_out outs = EOut (Some p) err /\
+    (forall k v, In (k, v) (p_data p0) -> In (k, v) (p_data p)) /\
+    (flagged outs = true -> p_complete p = false).
+Proof.
+  intros Hin. destruct (merge_outs_payload outs p0 e0 Hin) as (p & Ep & Hi & Hf).
+  unfold merged_out. destruct (merge_outs outs) as [resp anyerr]. cbn [fst] in Ep. subst resp.
+  eexists. eexists. split; [reflexivity|]. split; assumption.
+Qed.
+
+(* a payload that reached the merger (or the sole backend's payload) reaches the router *)
+Lemma outs_out_payload epx (o0 : pout) (orest : list pout) p0 (e0 : perr) :
+  In (Some p0, e0) (o0 :: orest) -> p_data p0 <> [] -> (orest = [] -> e0 = ENone) ->
+  exists p err, outs_out epx o0 orest = EOut (Some p) err /\ p_data p <> [] /\
+    (forall k v, In (k, v) (p_data p0) -> ~ In k (static_keys (static_cfg epx)) -> In (k, v) (p_data p)) /\
+    (flagged (o0 :: orest) = true -> p_complete p = false).
+Proof.
+  intros Hin Hne He. unfold outs_out. destruct orest as [|o1 orest].
+  - destruct Hin as [->|[]]. rewrite (He eq_refl). cbn [fst snd err_of_single].
+    destruct (static_stage_payload (static_cfg epx) p0 None) as (p' & E & Hc & Hn & Hi).
+    exists p', None. split; [exact E|]. split; [auto|]. split; [exact Hi|].
+    unfold flagged. cbn. rewrite orb_false_r. intros Hf. rewrite Hc.
+    destruct (p_complete p0); [discriminate|reflexivity].
+  - destruct (merged_out_payload (o0 :: o1 :: orest) p0 e0 Hin) as (p & err & Em & Hi & Hf).
+    rewrite Em.
+    assert (Hfl : flat_stage (flatmap_active epx) (EOut (Some p) err) = EOut (Some p) err).
+    { unfold flat_stage. destruct (flatmap_active epx); [|reflexivity]. destruct err; reflexivity. }
+    rewrite Hfl.
+    destruct (static_stage_payload (static_cfg epx) p err) as (p' & E & Hc & Hn & Hi').
+    exists p', err. split; [exact E|]. split.
+    + apply Hn. destruct (p_data p0) as [|[k v] l] eqn:Ed; [congruence|].
+      intros Hnil. specialize (Hi k v (or_introl eq_refl)). rewrite Hnil in Hi. destruct Hi.
+    + split.
+      * intros k v Hkv Hk. apply Hi'; [apply Hi; exact Hkv|exact Hk].
+      * intros Hfg. rewrite Hc. apply Hf. exact Hfg.
+Qed.
+
+(* what every router does with a non-empty response *)
+Lemma client_of_router_payload rt prior p err :
+  p_data p <> [] ->
+  client_of_router rt prior (Some p) err =
+  {| c_status := 200; c_completed := if p_complete p then "true" else "false";
+     c_body := BJson (JObj (p_data p)) |}.
+Proof.
+  intros Hne.
+  assert (Hl : negb (Nat.eqb (List.length (p_data p)) 0) = true).
+  { destruct (p_data p); [congruence|reflexivity]. }
+  destruct rt as [[]| | | | |]; unfold client_of_router, client_of, impl_of; rewrite Hl; cbn [andb];
+    destruct err as [[? ?]|]; reflexivity.
+Qed.
+
+Lemma outcome_failed_flagged b : b_failed b = true ->
+  match fst (outcome b) with None => true | Some p => negb (p_complete p) end = true.
+Proof.
+  destruct b as [[m r] d]. cbn [b_failed outcome]. intros H.
+  destruct (ok_status (r_code r)) eqn:Hok.
+  - destruct d as [dd|]; [discriminate|]. rewrite undecodable_fails by assumption. reflexivity.
+  - rewrite other_status_fails by assumption. destruct m; reflexivity.
+Qed.
+
+(* healthy siblings: their data reaches the client, flagged incomplete *)
+Lemma ep_siblings_data rt prior epx b0 rest m r dd bf :
+  In (m, r, Some dd) (b0 :: rest) -> ok_status (r_code r) = true -> dd <> [] ->
+  In bf (b0 :: rest) -> b_failed bf = true ->
+  let o := client_endpoint rt prior epx b0 rest in
+  c_status o = 200%Z /\ c_completed o = "false" /\
+  exists body, c_body o = BJson (JObj body) /\
+    forall k v, In (k, v) dd -> ~ In k (static_keys (static_cfg epx)) -> In (k, v) body.
+Proof.
+  intros Hin Hok Hdd Hbf Hf o. subst o. unfold client_endpoint. rewrite endpoint_out_outs.
+  set (p0 := {| p_data := dd; p_complete := true; p_status := 0 |}).
+  assert (Hin' : In (Some p0, ENone) (outcome b0 :: map outcome rest)).
+  { change (outcome b0 :: map outcome rest) with (map outcome (b0 :: rest)).
+    apply in_map_iff. exists (m, r, Some dd). split; [|exact Hin]. cbn [outcome]. apply used_when_ok. exact Hok. }
+  destruct (outs_out_payload epx (outcome b0) (map outcome rest) p0 ENone Hin' Hdd (fun _ => eq_refl))
+    as (p & err & E & Hne & Hi & Hc).
+  rewrite E, client_of_router_payload by exact Hne.
+  assert (Hfl : flagged (outcome b0 :: map outcome rest) = true).
+  { unfold flagged. apply existsb_exists. exists (outcome bf). split.
+    - change (outcome b0 :: map outcome rest) with (map outcome (b0 :: rest)). apply in_map. exact Hbf.
+    - apply outcome_failed_flagged. exact Hf. }
+  rewrite (Hc Hfl). cbn. repeat split. exists (p_data p). split; [reflexivity|]. exact Hi.
+Qed.
+
+(* return_error_details: error_<name> with the status and the body, flagged incomplete *)
+Lemma ep_details rt prior epx b0 rest n r d :
+  In (MDetails n, r, d) (b0 :: rest) -> ok_status (r_code r) = false ->
+  ~ In ("error_" ++ n)%string (static_keys (static_cfg epx)) ->
+  let o := client_endpoint rt prior epx b0 rest in
+  c_status o = 200%Z /\ c_completed o = "false" /\
+  exists body, c_body o = BJson (JObj body) /\
+    In (("error_" ++ n)%string, error_object (r_code r) (r_body r) (r_enc r)) body.
+Proof.
+  intros Hin Hok Hk o. subst o. unfold client_endpoint. rewrite endpoint_out_outs.
+  set (p0 := {| p_data := [(("error_" ++ n)%string, error_object (r_code r) (r_body r) (r_enc r))];
+                p_complete := false; p_status := r_code r |}).
+  assert (Hin' : In (Some p0, ENone) (outcome b0 :: map outcome rest)).
+  { change (outcome b0 :: map outcome rest) with (map outcome (b0 :: rest)).
+    apply in_map_iff. exists (MDetails n, r, d). split; [|exact Hin]. cbn [outcome]. apply details_mode. exact Hok. }
+  destruct (outs_out_payload epx (outcome b0) (map outcome rest) p0 ENone Hin') as (p & err & E & Hne & Hi & Hc);
+    [discriminate|reflexivity|].
+  rewrite E, client_of_router_payload by exact Hne.
+  assert (Hfl : flagged (outcome b0 :: map outcome rest) = true).
+  { unfold flagged. apply existsb_exists. exists (Some p0, ENone). split; [exact Hin'|reflexivity]. }
+  rewrite (Hc Hfl). cbn. repeat split. exists (p_data p). split; [reflexivity|].
+  apply Hi; [left; reflexivity|exact Hk].
+Qed.
+
+(* ---------- a sole backend ---------- *)
+Lemma static_stage_failure st (err : Z * string) :
+  static_on_failure st = false -> static_stage st (EOut None (Some err)) = EOut None (Some err).
+Proof.
+  destruct st as [[n data]|]; [|reflexivity]. cbn [static_on_failure static_stage]. intros H.
+  apply negb_false_iff, orb_true_iff in H. destruct H as [H|H]; apply str_eqb_eq in H; subst n; reflexivity.
+Qed.
+
+Lemma ep_sole_500 rt prior epx x r d :
+  status_mode_raw x = MDefault -> ok_status (r_code r) = false ->
+  static_on_failure (static_cfg epx) = false ->
+  client_endpoint rt prior epx (backend_of_raw (x, r, d)) [] =
+  {| c_status := 500; c_completed := "false";
+     c_body := match rt with
+               | RGin false => BRaw ""
+               | RGin true => BRaw "invalid status code"
+               | _ => BRaw ("invalid status code" ++ nl)
+               end |}.
+Proof.
+  intros Hm Hok Hst. unfold client_endpoint, endpoint_out, backend_of_raw, single_out. rewrite Hm.
+  rewrite (default_fails MDefault r d Hok eq_refl). cbn [err_of_single err_text].
+  rewrite static_stage_failure by exact Hst.
+  destruct rt as [[]| | | | |]; reflexivity.
+Qed.
+
+Lemma ep_error_code_exact rt prior epx x r d :
+  status_mode_raw x = MErrorCode -> ok_status (r_code r) = false ->
+  static_on_failure (static_cfg epx) = false ->
+  c_status (client_endpoint rt prior epx (backend_of_raw (x, r, d)) []) = r_code r /\
+  c_completed (client_endpoint rt prior epx (backend_of_raw (x, r, d)) []) = "false".
+Proof.
+  intros Hm Hok Hst. unfold client_endpoint, endpoint_out, backend_of_raw, single_out. rewrite Hm.
+  rewrite other_status_fails by exact Hok. cbn [err_of_single].
+  rewrite static_stage_failure by exact Hst.
+  destruct rt as [[]| | | | |]; split; reflexivity.
+Qed.
+
+(* 200/201: decoded and used, whatever the mode *)
+Lemma ep_ok_used rt prior epx x r dd :
+  ok_status (r_code r) = true -> static_cfg epx = None ->
+  client_endpoint rt prior epx (backend_of_raw (x, r, Some dd)) [] =
+  {| c_status := 200;
+     c_completed := if Nat.eqb (List.length dd) 0 then "false" else "true";
+     c_body := BJson (JObj dd) |}.
+Proof.
+  intros Hok Hst. unfold client_endpoint, endpoint_out, backend_of_raw, single_out.
+  rewrite used_when_ok by exact Hok. rewrite Hst. cbn [static_stage err_of_single].
+  destruct dd as [|kv dd']; destruct rt as [[]| | | | |]; reflexivity.
+Qed.
+
+(* with static data declared: the data is still delivered, next to the declared keys *)
+Lemma ep_ok_used_static rt prior epx x r dd :
+  ok_status (r_code r) = true -> dd <> [] ->
+  let o := client_endpoint rt prior epx (backend_of_raw (x, r, Some dd)) [] in
+  c_status o = 200%Z /\ c_completed o = "true" /\
+  exists body, c_body o = BJson (JObj body) /\
+    forall k v, In (k, v) dd -> ~ In k (static_keys (static_cfg epx)) -> In (k, v) body.
+Proof.
+  intros Hok Hdd o. subst o. unfold client_endpoint, endpoint_out, backend_of_raw, single_out.
+  rewrite used_when_ok by exact Hok. cbn [err_of_single].
+  destruct (static_stage_payload (static_cfg epx) {| p_data := dd; p_complete := true; p_status := 0 |} None)
+    as (p' & E & Hc & Hn & Hi).
+  rewrite E, client_of_router_payload by (apply Hn; exact Hdd).
+  rewrite Hc. cbn. repeat split. exists (p_data p'). split; [reflexivity|exact Hi].
+Qed.
+
+(* ---------- routers ---------- *)
+Lemma prior_errors_irrelevant rt prior prior' epx b0 rest :
+  client_endpoint rt prior epx b0 rest = client_endpoint rt prior' epx b0 rest.
+Proof. reflexivity. Qed.
+
+Definition mux_family (rt : router) : bool := match rt with RGin _ => false | _ => true end.
+
+Lemma mux_family_agree rt prior epx b0 rest :
+  mux_family rt = true ->
+  client_endpoint rt prior epx b0 rest = client_endpoint RMux prior epx b0 rest.
+Proof. destruct rt; [discriminate| | | | |]; reflexivity. Qed.
+
+(* return_error_msg changes the body of a bare error reply only *)
+Lemma return_error_msg_same_status prior epx b0 rest :
+  c_status (client_endpoint (RGin true) prior epx b0 rest) = c_status (client_endpoint (RGin false) prior epx b0 rest) /\
+  c_completed (client_endpoint (RGin true) prior epx b0 rest) = c_completed (client_endpoint (RGin false) prior epx b0 rest).
+Proof.
+  unfold client_endpoint. destruct (endpoint_out epx b0 rest) as [resp err|]; [|split; reflexivity].
+  destruct resp as [p|], err as [[st txt]|]; split; reflexivity.
+Qed.
+
+Lemma client_endpoint_not_panicked rt prior epx b0 rest :
+  client_endpoint rt prior epx b0 rest <> panicked.
+Proof.
+  unfold client_endpoint. pose proof (endpoint_no_panic epx b0 rest) as Hn.
+  destruct (endpoint_out epx b0 rest) as [resp err|]; [|congruence].
+  destruct rt as [[]| | | | |], resp as [p|], err as [[st txt]|]; cbn;
+    unfold panicked; try discriminate;
+    try (destruct (negb (Nat.eqb (List.length (p_data p)) 0) && p_complete p); discriminate);
+    try (destruct (negb (Nat.eqb (List.length (p_data p)) 0)); cbn; try discriminate;
+         destruct (p_complete p); discriminate).
+Qed.
+
+(* ---------- the model meets the endpoint oracle (sole backend, no static data) ---------- *)
+Lemma is_prefix_app s : forall t u, is_prefix s t = true -> is_prefix s (t ++ u) = true.
+Proof.
+  induction s as [|a s IH]; intros t u H; [reflexivity|].
+  destruct t as [|b t]; [discriminate|]. cbn in *. apply andb_true_iff in H as [H1 H2].
+  rewrite H1. cbn. apply IH. exact H2.
+Qed.
+
+Lemma is_infix_app s : forall t u, is_infix s t = true -> is_infix s (t ++ u) = true.
+Proof.
+  induction t as [|b t IH]; intros u H.
+  - cbn in H. rewrite orb_false_r in H. destruct s; [|discriminate]. destruct u; reflexivity.
+  - cbn [is_infix] in H. apply orb_true_iff in H as [H|H].
+    + pose proof (is_prefix_app s (String b t) u H) as Hp. cbn [append] in Hp |- *.
+      cbn [is_infix]. rewrite Hp. reflexivity.
+    + cbn [append is_infix]. rewrite (IH u H). apply orb_true_r.
+Qed.
+
+Lemma no_leak_empty r : no_leak_b r "" = true.
+Proof.
+  unfold no_leak_b. destruct (r_body r) as [|a s]; [reflexivity|]. cbn. apply orb_true_r.
+Qed.
+
+Lemma no_leak_not_infix r raw : is_infix (r_body r) raw = false -> no_leak_b r raw = true.
+Proof. intros H. unfold no_leak_b. rewrite H. apply orb_true_r. Qed.
+
+Lemma not_static_nil (d : obj) : not_static [] d = d.
+Proof. unfold not_static. induction d as [|kv d IH]; [reflexivity|]. simpl. f_equal. exact IH. Qed.
+
+Lemma carries_refl dd : wfj (JObj dd) = true -> carries_b dd dd = true.
+Proof.
+  intros H. pose proof (obj_eqb_refl dd H) as E. unfold obj_eqb in E. rewrite json_eqb_obj in E.
+  apply andb_true_iff in E as [_ E]. exact E.
+Qed.
+
+Lemma ep_single_meets_oracle rt prior epx m r d :
+  static_cfg epx = None ->
+  match d with Some dd => wfj (JObj dd) = true | None => True end ->
+  is_infix (r_body r) ("invalid status code" ++ nl) = false ->
+  spec_endpoint_b rt epx (m, r, d) []
+    (client_endpoint rt prior epx (m, r, d) [])
+    (raw_of (client_endpoint rt prior epx (m, r, d) [])) = true.
+Proof.
+  intros Hst Hwf Hinf.
+  assert (Hinf' : is_infix (r_body r) "invalid status code" = false).
+  { destruct (is_infix (r_body r) "invalid status code") eqn:E; [|reflexivity].
+    rewrite (is_infix_app _ _ nl E) in Hinf. discriminate. }
+  unfold spec_endpoint_b, client_endpoint, endpoint_out, single_out. rewrite Hst.
+  cbn [static_stage static_keys static_on_failure forallb existsb b_failed].
+  destruct (ok_status (r_code r)) eqn:Hok.
+  - destruct d as [dd|].
+    + rewrite used_when_ok by exact Hok. cbn [err_of_single]. rewrite not_static_nil.
+      unfold spec_single_b. rewrite Hok.
+      destruct dd as [|kv dd'].
+      * destruct rt as [[]| | | | |]; reflexivity.
+      * pose proof (carries_refl _ Hwf) as Hc. pose proof (obj_eqb_refl _ Hwf) as He.
+        destruct rt as [[]| | | | |];
+          cbn [client_of_router client_of impl_of List.length Nat.eqb negb andb orb p_data p_complete
+               c_status c_completed c_body body_obj Z.eqb Pos.eqb str_eqb];
+          rewrite Hc, He; reflexivity.
+    + rewrite undecodable_fails by exact Hok. unfold spec_single_b. rewrite Hok.
+      destruct rt as [[]| | | | |]; reflexivity.
+  - rewrite other_status_fails by exact Hok. unfold spec_single_b. rewrite Hok.
+    destruct m as [| |n].
+    + cbn [err_of_single err_text].
+      destruct rt as [[]| | | | |];
+        cbn [client_of_router client_of impl_of c_status c_completed c_body raw_of body_obj negb orb andb];
+        rewrite ?no_leak_empty, ?(no_leak_not_infix r _ Hinf), ?(no_leak_not_infix r _ Hinf'); reflexivity.
+    + cbn [err_of_single].
+      destruct rt as [[]| | | | |];
+        cbn [client_of_router client_of impl_of c_status c_completed c_body raw_of body_obj negb orb andb];
+        rewrite Z.eqb_refl; reflexivity.
+    + cbn [err_of_single].
+      destruct rt as [[]| | | | |];
+        cbn [client_of_router client_of impl_of List.length Nat.eqb negb andb orb p_data p_complete
+             c_status c_completed c_body body_obj raw_of str_mem];
+        rewrite details_ok_model; reflexivity.
+Qed.
+
+(* a declared fallback (static data that applies to failed requests) replaces the 500 *)
+Lemma static_fallback_refutes_500 :
+  exists epx x r,
+    status_mode_raw x = MDefault /\ ok_status (r_code r) = false /\
+    c_status (client_endpoint (RGin false) [] epx (backend_of_raw (x, r, None)) []) = 200%Z.
+Proof.
+  exists [(ns_proxy, JObj [("static", JObj [("strategy", JStr "errored"); ("data", JObj [("fallback", JBool true)])])])],
+         [], {| r_code := 503; r_body := "down"; r_enc := "text/plain" |}.
+  vm_compute. repeat split.
+Qed.
